@@ -196,11 +196,17 @@ def reflections_and_fixed_points(tier, rng, rep):
                 rep.fail("non_reflection_rejected", f"{nm}: raised {type(e).__name__} instead of GeometryError", {"n": n, "which": nm, "matrix": M.proj_data.tolist()})
         # Coxeter reflections
         if t % 5 == 0:
-            pqr = [(2, 3, 7), (3, 3, 4), (2, 4, 5), (4, 4, 4)][(t // 5) % 4]
-            rp = coxeter.TriangleGroup(pqr).hyperbolic_rep()
-            for g in "abc":
+            pqr = [(2, 3, 7), (0, 3, 4), (3, 3, 4), (2, 3, 0), (2, 4, 5), (0, 0, 0), (4, 4, 4), (2, 4, -1)][(t // 5) % 8]     # infinite labels written 0 or negative
+            try:
+                rp = coxeter.TriangleGroup(pqr).hyperbolic_rep()
+            except Exception as e:
+                rep.fail("coxeter_generator_is_reflection_across_its_wall", f"{pqr}: hyperbolic_rep raised {type(e).__name__}: {e}", {"triangle": list(pqr)})
+                rp = None
+            for g in ("abc" if rp is not None else ""):
                 Mg = rp[g]
                 try:
+                    if not np.all(np.isfinite(Mg.proj_data)):
+                        rep.fail("coxeter_generator_is_reflection_across_its_wall", f"{pqr} {g}: non-finite matrix", {"triangle": list(pqr), "generator": g}); continue
                     Hg = h.Hyperplane.from_reflection(Mg).flatten_to_unit()[0]
                     Rg = Hg.reflection_across().proj_data
                     if not np.all(np.abs(Rg - Mg.proj_data) <= 1e-6):
